@@ -196,7 +196,7 @@ Definition Inv (s : state) : Prop :=
   OwnInv s
   /\ NoDup (keys (nfts s))
   /\ (forall k, get k (nfts s) <> None <-> get k (owners s) <> None)
-  /\ (forall c, total_supply s c = n_tokens s c)
+  /\ (forall c, total_supply s c = n_tokens s c mod two64)
   /\ (forall c, n_index s c = n_tokens s c)
   /\ (forall c t, get (c, t) (nfts s) <> None -> get c (classes s) <> None)
   /\ (forall k a, get k (owners s) = Some a -> 0 <= a).
@@ -208,7 +208,7 @@ Qed.
 
 Definition mint_state c t m a s :=
   let s2 := set_owner c t a (with_nfts s (set (c, t) m (nfts s))) in
-  with_supply s2 (set c (total_supply s2 c + 1) (supply s2)).
+  with_supply s2 (set c (uinc (total_supply s2 c)) (supply s2)).
 Definition burn_state c t s :=
   let s2 := delete_owner c t (get_owner s c t) (with_nfts s (del (c, t) (nfts s))) in
   with_supply s2 (set c (udec (total_supply s2 c)) (supply s2)).
@@ -273,11 +273,11 @@ Proof.
   { intros c'. unfold total_supply, n_tokens. simpl. rewrite getz_set, Hnf2, Hsp2. simpl.
     rewrite n_tokens_set_absent by exact Ht. simpl. fold (total_supply s c'). fold (total_supply s c).
     destruct (eq_dec c' c) as [->|Hne].
-    - rewrite Z.eqb_refl, Hsup. simpl. lia.
-    - assert (Hf : c =? c' = false) by (apply Z.eqb_neq; congruence). rewrite Hf, Hsup. simpl. lia. }
+    - rewrite Z.eqb_refl, Hsup. unfold uinc, b2z. rewrite Z.add_mod_idemp_l by (unfold two64; lia). reflexivity.
+    - assert (Hf : c =? c' = false) by (apply Z.eqb_neq; congruence). rewrite Hf, Hsup. unfold b2z. rewrite Z.add_0_r. reflexivity. }
   split.
   { intros c'. unfold n_tokens. cbn [nfts with_supply]. rewrite Hnf2. simpl. rewrite n_tokens_set_absent by exact Ht.
-    change (n_index (with_supply s2 (set c (total_supply s2 c + 1) (supply s2))) c') with (n_index s2 c').
+    change (n_index (with_supply s2 (set c (uinc (total_supply s2 c)) (supply s2))) c') with (n_index s2 c').
     rewrite Hn2. change (n_index s1 c') with (n_index s c'). rewrite Hidx. simpl. lia. }
   split.
   { intros c' t'. rewrite Hnf2, Hcl2. simpl. rewrite get_set. destruct (eq_dec (c', t') (c, t)) as [Heq|Hne].
@@ -312,11 +312,8 @@ Proof.
   { intros c'. unfold total_supply, n_tokens. simpl. rewrite getz_set, Hnf2, Hsp2. simpl.
     rewrite Hcnt. fold (total_supply s c'). fold (total_supply s c).
     destruct (eq_dec c' c) as [->|Hne].
-    - rewrite Z.eqb_refl, Hsup. simpl.
-      pose proof (count_nonneg (fun k0 : cid * tid => fst k0 =? c) (keys (del (c, t) (nfts s)))) as Hnn.
-      rewrite Hcnt, Z.eqb_refl in Hnn. simpl in Hnn. unfold udec.
-      destruct (n_tokens s c =? 0) eqn:Hz; [apply Z.eqb_eq in Hz; lia|lia].
-    - assert (Hf : c =? c' = false) by (apply Z.eqb_neq; congruence). rewrite Hf, Hsup. simpl. lia. }
+    - rewrite Z.eqb_refl, Hsup. unfold udec, b2z. rewrite Zminus_mod_idemp_l. reflexivity.
+    - assert (Hf : c =? c' = false) by (apply Z.eqb_neq; congruence). rewrite Hf, Hsup. unfold b2z. rewrite Z.sub_0_r. reflexivity. }
   split.
   { intros c'. unfold n_tokens. cbn [nfts with_supply]. rewrite Hnf2. simpl. rewrite Hcnt.
     change (n_index (with_supply s2 (set c (udec (total_supply s2 c)) (supply s2))) c') with (n_index s2 c').
@@ -449,7 +446,7 @@ Lemma transfer_ok s a c t n u h d r s' : transfer s a c t n u h d r = Some s' ->
     /\ ((changes n u h d = false /\ s' = transfer_state c t r s)
         \/ (s' = transfer_state c t r (with_nfts s (set (c, t) (apply_changes m n u h d) (nfts s))))).
 Proof.
-  unfold transfer. destruct (denom_ok c && addr_ok a && addr_ok r && json_or_empty_or_dnm d && token_ok t) eqn:Hv; [|discriminate].
+  unfold transfer. destruct (denom_ok c && addr_ok a && addr_ok r && uri_ok u && json_or_empty_or_dnm d && token_ok t) eqn:Hv; [|discriminate].
   split_andb Hv.
   destruct (get (c, t) (nfts s)) as [m|] eqn:Hm; [|discriminate].
   destruct (authorize s c t a) eqn:Ha; simpl; [|discriminate]. apply authorize_spec in Ha.
@@ -766,19 +763,60 @@ Proof.
 Qed.
 
 Lemma supply_lemma s : Inv s ->
-  (forall c, total_supply s c = n_tokens s c)
+  (forall c, total_supply s c = n_tokens s c mod two64)
+  /\ (forall c, n_tokens s c < two64 -> total_supply s c = n_tokens s c)
   /\ (forall c, n_index s c = n_tokens s c)
   /\ (forall c, n_tokens s c = Z.of_nat (length (tokens_of s c)))
   /\ (forall c (l : list addr), NoDup l -> (forall a t, In (a, c, t) (index s) -> In a l) ->
-        zsum (map (fun a => balance s a c) l) = total_supply s c).
+        zsum (map (fun a => balance s a c) l) = n_tokens s c).
 Proof.
   intros HI. pose proof HI as (_ & _ & _ & Hsup & Hidx & _).
-  split; [exact Hsup|]. split; [exact Hidx|].
+  split; [exact Hsup|].
+  split; [intros c Hlt; rewrite Hsup; apply Z.mod_small; split; [apply count_nonneg|exact Hlt]|].
+  split; [exact Hidx|].
   split; [intros c; unfold n_tokens, count, tokens_of; rewrite map_length; reflexivity|].
-  intros c l Hnd Hcov. rewrite Hsup, <- Hidx, n_index_eq.
+  intros c l Hnd Hcov. rewrite <- Hidx, n_index_eq.
   rewrite (map_ext _ (fun a => count (fun e => (addr_of e =? a) && (cls_of e =? c)) (index s)))
     by (intros a; apply balance_count; exact HI).
   apply sum_count; [exact Hnd|]. intros [[a c'] t] Hin Hc. simpl in *. subst c'. apply (Hcov a t). exact Hin.
+Qed.
+
+(** the number of NFTs of a class grows by at most one per step: the counter cannot have wrapped
+    in a history of fewer than 2^64 steps *)
+Lemma count_filter_le {A} (p q : A -> bool) l : count p (filter q l) <= count p l.
+Proof.
+  induction l as [|x l IH]; simpl; [lia|]. destruct (q x); rewrite ?count_cons; unfold b2z; destruct (p x); lia.
+Qed.
+
+Lemma n_tokens_step s msg s' c : exec_msg s msg = Some s' -> n_tokens s' c <= n_tokens s c + 1.
+Proof.
+  intros He.
+  destruct msg as [a c0 mr ur d0 o0|a c0 t0 n u h d r|a c0 t0 n u h d|a c0 t0 n u h d r|a c0 t0|a c0 r]; simpl in He.
+  - apply issue_ok in He. destruct He as (_ & _ & _ & ->). unfold n_tokens. simpl. lia.
+  - apply mint_ok in He. destruct He as (cl & _ & _ & Ht & _ & _ & ->). unfold n_tokens at 1. simpl.
+    rewrite n_tokens_set_absent by exact Ht. unfold b2z. destruct (fst (c0, t0) =? c); lia.
+  - apply edit_ok in He. destruct He as (cl & _ & _ & _ & [[_ ->]|(m0 & Hm0 & ->)]); [lia|].
+    unfold n_tokens. simpl. rewrite keys_set_present by congruence. lia.
+  - apply transfer_ok in He. destruct He as (cl & m0 & _ & Hm0 & _ & _ & _ & [[_ ->]| ->]); unfold n_tokens; simpl; [lia|].
+    rewrite keys_set_present by congruence. lia.
+  - apply burn_ok in He. destruct He as (_ & _ & ->). unfold n_tokens. simpl. rewrite keys_del.
+    pose proof (count_filter_le (fun k : cid * tid => fst k =? c) (fun x => negb (eqb x (c0, t0))) (keys (nfts s))). lia.
+  - apply handover_ok in He. destruct He as (cl & _ & _ & _ & ->). unfold n_tokens. simpl. lia.
+Qed.
+
+Lemma n_tokens_next s st c : n_tokens (next s st) c <= n_tokens s c + 1.
+Proof.
+  unfold next. destruct st as [m|]; simpl; [|lia].
+  destruct (exec_msg s m) as [s'|] eqn:He; [exact (n_tokens_step s m s' c He)|lia].
+Qed.
+
+Lemma n_tokens_run steps : forall s n, (forall c, n_tokens s c <= n) ->
+  forall c, n_tokens (run s steps) c <= n + Z.of_nat (length steps).
+Proof.
+  induction steps as [|st rest IH]; intros s n Hb c; simpl; [specialize (Hb c); lia|].
+  rewrite Zpos_P_of_succ_nat. specialize (IH (next s st) (n + 1)).
+  assert (Hb' : forall c0, n_tokens (next s st) c0 <= n + 1) by (intros c0; pose proof (n_tokens_next s st c0); specialize (Hb c0); lia).
+  specialize (IH Hb' c). lia.
 Qed.
 
 Lemma owner_unique_lemma s : Inv s ->
@@ -816,12 +854,24 @@ Lemma r_owner_unique s : Reachable s ->
 Proof. intros Hr. apply owner_unique_lemma, Reachable_Inv, Hr. Qed.
 
 Lemma r_supply s : Reachable s ->
-  (forall c, total_supply s c = n_tokens s c)
+  (forall c, total_supply s c = n_tokens s c mod two64)
+  /\ (forall c, n_tokens s c < two64 -> total_supply s c = n_tokens s c)
   /\ (forall c, n_index s c = n_tokens s c)
   /\ (forall c, n_tokens s c = Z.of_nat (length (tokens_of s c)))
   /\ (forall c (l : list addr), NoDup l -> (forall a t, In (a, c, t) (index s) -> In a l) ->
-        zsum (map (fun a => balance s a c) l) = total_supply s c).
+        zsum (map (fun a => balance s a c) l) = n_tokens s c).
 Proof. intros Hr. apply supply_lemma, Reachable_Inv, Hr. Qed.
+
+Lemma r_supply_no_wrap steps c : Z.of_nat (length steps) < two64 ->
+  n_tokens (run init steps) c <= Z.of_nat (length steps)
+  /\ total_supply (run init steps) c = n_tokens (run init steps) c.
+Proof.
+  intros Hlen.
+  assert (Hb : n_tokens (run init steps) c <= 0 + Z.of_nat (length steps)).
+  { apply n_tokens_run. intros c0. unfold n_tokens, count, init. simpl. lia. }
+  split; [lia|].
+  destruct (supply_lemma (run init steps)) as (_ & Hs & _); [apply run_inv, Inv_init|]. apply Hs. lia.
+Qed.
 
 Lemma r_token_step s msg s' c t m o : Reachable s ->
   exec_msg s msg = Some s' -> get (c, t) (nfts s) = Some m -> get_owner s c t = Some o ->
